@@ -120,7 +120,19 @@ func C13(tier common.Tier) int {
 // compareUseSpell: codes reported for every reference (TONL02/03, PKGO02/03) must be equal site by
 // site; the once-per-file codes (TONL01, PKGO01) are compared as "which types are reported in the
 // using package", because an alias declaration is itself the first mention of the type.
+//
+// That exception is needed only where the alias declaration is: under the local-alias spelling in file a.go. In every
+// other file, and under the spellings that add no declaration to the using package (alias in a third package, renamed
+// import, dot import), the once-per-file codes are compared site by site as well.
 func compareUseSpell(run *common.Run, fam string, v *e1.UseSpec, bb, vb map[string]string, brest, vrest []string, bcrash, vcrash, text string) {
+	fileOf := func(key string) int {
+		var id int
+		fmt.Sscanf(key, "%d.", &id)
+		if id >= 1 && id <= len(v.Blocks) {
+			return v.Blocks[id-1].File
+		}
+		return 0
+	}
 	sp := e1.SpellNames[v.Spell]
 	if bcrash != "" || vcrash != "" {
 		if bcrash != vcrash {
@@ -168,6 +180,9 @@ func compareUseSpell(run *common.Run, fam string, v *e1.UseSpec, bb, vb map[stri
 	sort.Strings(keys)
 	for _, k := range keys {
 		b, w := strip(bb[k]), strip(vb[k])
+		if v.Spell != e1.SpLocalAlias || fileOf(k) != 0 {
+			b, w = bb[k], vb[k]
+		}
 		if bb[k] != "" {
 			nt = e1.UseSpecString(v) + fam
 		}
